@@ -662,6 +662,14 @@ def run(chk):
     d8(chk, prog)
     d9(chk, prog)
     d11(chk, prog)
+    chk.clause("D12", "the per-sample corrections depend on the sample alone: no draw from a generator that outlives the call in reference / fix (shared-generator rule of C10-D2)")
+    from .. import rules
+    hits = [(sfi, sn, desc) for sfi, sn, desc in rules.shared_generators(prog) if sfi.mod in ("cnvlib.fix", "cnvlib.reference")]
+    for sfi, sn, desc in hits:
+        chk.violate("estimator-binding", f"{sfi.qn}::{norm(sn)[:70]}", sfi.loc(sn), f"`{norm(sn)[:60]}` draws from a generator that outlives the call ({desc}): every sample of the pool -- and every correction -- "
+                    "is shuffled differently, so normals that differ only in depth no longer reproduce their common profile")
+    if not hits:
+        chk.ok("estimator-binding", "no draw from a module-level / default-argument / class-attribute generator in cnvlib.fix / cnvlib.reference")
     chk.clause("D10", "each sample is centred on its covered autosomal bins before pooling: center_all (C15-D1 rule)")
     from . import C15, C19
     C15.d1(chk, prog)
